@@ -142,6 +142,10 @@ func init() {
 		p.Thorough = append(p.Thorough, HRun{Entry: "HarnessC19Relations", Args: []int64{2, 1}, Bound: "matrix value comparison, depth 2 vs 1 (no panic)", Require: []string{"compared"}})
 		p.Thorough = append(p.Thorough, HRun{Entry: "HarnessC19Rule", Args: []int64{2, 1}, Bound: "matrix rule, depth 2 vs 1 (no panic)", Require: []string{"rows"}})
 		p.Thorough = append(p.Thorough, HRun{Entry: "HarnessC01Render", Args: []int64{5}, Bound: "64-bit symbolic line and column, all sources of 5 bytes", Require: []string{"printed"}})
+		for _, a := range [][2]int64{{3, 0}, {4, 0}, {2, 1}, {2, 2}, {3, 3}, {2, 4}, {2, 5}} {
+			p.Quick = append(p.Quick, HRun{Entry: "HarnessC01Cron", Args: []int64{a[0], a[1]}, Bound: "schedule check on a cron specification of a concrete prefix (none, TZ=, CRON_TZ=, @, '@every ', 'TZ=U ') + arbitrary bytes; robfig/cron's parser interpreted from source", Require: []string{"checked"}})
+			p.Thorough = append(p.Thorough, HRun{Entry: "HarnessC01Cron", Args: []int64{a[0] + 1, a[1]}, Bound: "... one more arbitrary byte", Require: []string{"checked"}})
+		}
 		props["C01"] = p
 	}
 	// ---- C04 ----
